@@ -40,11 +40,14 @@ LookupStable == [][last'.op = "RLookup" =>
                      /\ cur # {} => last'.res \in cur
                      /\ (p.r # -1 /\ p.r \in cur /\ cur \subseteq p.members) => last'.res = p.r]_rvars
 
+\* every ring `set` can build for the member set S (one per order as shipped, a single one when repaired)
+RingsOf(S) == IF "RingTie" \in Defects THEN {OwnerLast(o, vh) : o \in SeqsOf(S)} ELSE {OwnerMin(S, vh)}
+
 \* static form, for every table: ownership is monotone under removal and independent of the order
 Monotone == \A S \in SUBSET Members :
-              LET RS == {RingOf(o) : o \in SeqsOf(S)} IN
+              LET RS == RingsOf(S) IN
               \A T \in SUBSET S :
-                 LET RT == {RingOf(o) : o \in SeqsOf(T)} IN
+                 LET RT == RingsOf(T) IN
                  \A h \in 0..(H - 1) : \A rs \in RS : \A rt \in RT :
                     LET a == Lookup(rs, h) IN a \in T => Lookup(rt, h) = a
 =============================================================================
